@@ -451,8 +451,31 @@ impl IntoSqlBuilder for LiteralsAndKeywords {
                 }))
             }
             LiteralsAndKeywords::NullLit => "NULL".to_owned(),
+            // SQL has no negative literals: `-5` is an operator applied to `5`, and a
+            // second `-` in front of it would start a comment
+            // (the parser records the 9223372036854775808 of `-9223372036854775808` as
+            // i64::MIN and keeps the minus sign in front of it)
+            LiteralsAndKeywords::IntegerLit(i64::MIN) => format!("{}", i64::MIN.unsigned_abs()),
+            LiteralsAndKeywords::IntegerLit(val) if *val < 0 => format!("({})", val),
             LiteralsAndKeywords::IntegerLit(val) => format!("{}", val),
             LiteralsAndKeywords::UnsignedLit(val) => format!("{}", val),
+            LiteralsAndKeywords::FloatingLit(val) if !val.is_finite() => {
+                // there is no numeric spelling of these, only the cast of their name
+                let name = if val.is_nan() {
+                    "'NaN'"
+                } else if *val > 0.0 {
+                    "'Infinity'"
+                } else {
+                    "'-Infinity'"
+                };
+                return Ok(Box::new(CastBuilder {
+                    value: StaticSqlBuilder::boxed(name),
+                    cast_type: StaticSqlBuilder::boxed("double precision"),
+                }));
+            }
+            LiteralsAndKeywords::FloatingLit(val) if val.is_sign_negative() => {
+                format!("({})", val)
+            }
             LiteralsAndKeywords::FloatingLit(val) => format!("{}", val),
             LiteralsAndKeywords::FStringList(_) => {
                 return Ok(Box::new(UnsupportedBuilder {
